@@ -129,6 +129,12 @@ def build_scene(model):
             gobj[name] = trimesh.Trimesh(G["V"].copy(), G["F"].copy(), process=False)
         elif G["kind"] == "points":
             gobj[name] = trimesh.PointCloud(G["V"].copy())
+        elif G["kind"] == "path2d":
+            from trimesh.path import Path2D
+            from trimesh.path.entities import Line
+
+            # a planar drawing: the model keeps its vertices as 3D points with z = 0
+            gobj[name] = Path2D(entities=[Line(list(range(len(G["V"]))))], vertices=G["V"][:, :2].copy(), process=False)
         else:
             from trimesh.path import Path3D
             from trimesh.path.entities import Line
@@ -190,6 +196,23 @@ def scene_family(tier):
     m.geoms["unused"] = {"kind": "mesh", "V": _TET_V.copy() * 100, "F": _TET_F.copy()}
     m.nodes = {"frame": ("world", EDGE["RxT"].copy(), None), "a": ("frame", EDGE["T"].copy(), "tet"), "p": ("frame", EDGE["Rz"].copy(), "pts"), "q": ("a", EDGE["Rz"].copy(), "path")}
     fam["mixed kinds, empty frame, unreferenced geometry"] = m
+    # planar drawings: placed by an in-plane rotation + in-plane translation, by a pure in-plane translation,
+    # and out of plane; next to a mesh
+    m = Model()
+    m.geoms = {"tet": dict(geoms["tet"])}
+    m.geoms["draw"] = {"kind": "path2d", "V": np.array([[0, 0, 0], [3, 0, 0], [3, 1, 0], [0, 2, 0.0]])}
+    m.geoms["draw2"] = {"kind": "path2d", "V": np.array([[1, 1, 0], [2, 1, 0], [2, 3, 0.0]])}
+    m.nodes = {
+        "a": ("world", EDGE["T"].copy(), "tet"),
+        "d1": ("world", H(RZ, [5.0, -7.0, 0.0]), "draw"),
+        "d2": ("world", H(t=[-4.0, 6.0, 0.0]), "draw2"),
+    }
+    fam["planar drawings placed in their plane"] = m
+    m = Model()
+    m.geoms = {"tet": dict(geoms["tet"])}
+    m.geoms["draw"] = {"kind": "path2d", "V": np.array([[0, 0, 0], [3, 0, 0], [3, 1, 0], [0, 2, 0.0]])}
+    m.nodes = {"a": ("world", EDGE["T"].copy(), "tet"), "d1": ("a", EDGE["RxT"].copy(), "draw"), "d2": ("world", H(RZ, [5.0, -7.0, 2.0]), "draw")}
+    fam["planar drawing instanced out of its plane"] = m
     return fam
 
 
@@ -434,6 +457,29 @@ def actions():
         m.geoms.pop("tet", None)
         return m
 
+    def _leaf(model):
+        """The last node nobody hangs below."""
+        parents = {p for p, _, _ in model.nodes.values()}
+        leaves = sorted((n for n in model.nodes if n not in parents), key=str)
+        return leaves[-1] if leaves else None
+
+    def a_remove_leaf(s):
+        # the graph-level way of taking one instance out of the scene
+        parents = {s.graph.transforms.parents.get(n) for n in s.graph.nodes}
+        leaves = sorted((n for n in s.graph.nodes if n not in parents and n != s.graph.base_frame), key=str)
+        if not leaves:
+            raise KeyError("no leaf")
+        s.graph.transforms.remove_node(leaves[-1])
+        return s
+
+    def spec_remove_leaf(model):
+        m = model.copy()
+        n = _leaf(m)
+        if n is None:
+            raise KeyError("no leaf")
+        del m.nodes[n]
+        return m
+
     def a_subscene(s):
         return s.subscene("a")
 
@@ -488,6 +534,7 @@ def actions():
         ("geometry vertices edited in place", a_geom_inplace, spec_geom_inplace, False),
         ("add_geometry", a_add_geom, spec_add_geom, False),
         ("delete_geometry", a_del_geom, spec_del_geom, False),
+        ("graph.transforms.remove_node(leaf)", a_remove_leaf, spec_remove_leaf, False),
         ("subscene", a_subscene, spec_subscene, True),
     ]
     return acts
